@@ -295,6 +295,8 @@ class HubRun:
         rel = os.path.relpath(path, self.root) if path.startswith(self.root) else ""
         if call in ("read0", "write1", "sendfile1", "close", "fsync", "mkdir", "read"):
             return "private"
+        if rel == ".copia/commit.lock" and call == "open" and getattr(self, "lock_open_visible", False):
+            return "visible"        # lock-stress runs also schedule WHEN each server binds the lock's name to an inode
         if rel in (".", ".copia") or rel.startswith(".copia/") and call in ("open", "stat"):
             return "private"
         if call in ("flock", "funlock"):
@@ -311,7 +313,9 @@ class HubRun:
         if s.pending["call"] == "read0":
             return s.in_avail > 0 or not s.stdin_open
         if s.pending["call"] == "flock":
-            return self.lock_holder is None      # a probe while somebody holds the lock would only report "blocked"
+            # the lock is NOT assumed to work: a server may probe whenever it has not already been told "blocked"
+            # since the last unlock / death (a failed probe is not a step of the schedule)
+            return not getattr(s, "lock_wait", False)
         return True
 
     def grant(self, s, kill=False):
@@ -325,6 +329,8 @@ class HubRun:
             pass
         if kill:
             s.proc.wait()
+            for x in self.servers:
+                x.lock_wait = False
             if self.lock_holder == s.sid:
                 self.lock_holder = None
             s.alive = False
@@ -333,6 +339,8 @@ class HubRun:
             return
         if p["call"] == "funlock":
             self.lock_free = True
+            for x in self.servers:
+                x.lock_wait = False
         if p["call"] == "flock":
             self.lock_free = False      # optimistic; a failed probe reports B and sets blocked_on_lock
 
@@ -399,9 +407,16 @@ class HubRun:
                 if all((not s.alive) or (s.pending and s.pending["call"] == "read0" and not s.to_send and s.in_avail == 0) for s in self.servers):
                     break
                 blocked = [s for s in self.servers if s.alive and s.pending and s.pending["call"] == "flock"]
-                if blocked and self.lock_holder is not None and not any(x.alive and x.sid == self.lock_holder for x in self.servers):
-                    self.lock_holder = None      # the holder is gone: the kernel released the lock
-                    continue
+                if blocked and any(getattr(x, "lock_wait", False) for x in blocked):
+                    holders_alive = any(x.alive and x.sid == self.lock_holder for x in self.servers) if self.lock_holder is not None else False
+                    if not holders_alive or not any(x.alive and x.pending is not None and x is not b for b in blocked for x in self.servers if x not in blocked):
+                        for x in blocked:
+                            x.lock_wait = False     # the holder is gone (or nobody else can move): let them probe again
+                        self.lock_holder = None if not holders_alive else self.lock_holder
+                        if getattr(self, "_relock_tries", 0) > 50:
+                            break
+                        self._relock_tries = getattr(self, "_relock_tries", 0) + 1
+                        continue
                 self.settle()
                 if not self.visible_servers():
                     break
@@ -411,6 +426,12 @@ class HubRun:
             call = dict(s.pending)
             self.grant(s, kill=kill)
             self.settle()
+            if call["call"] == "flock" and not kill and s.alive and s.blocked_on_lock and s.pending is not None and s.pending["call"] == "flock":
+                # the probe found the lock held: nothing happened, the server waits for the next unlock
+                s.lock_wait = True
+                s.steps -= 1
+                self.probes_failed = getattr(self, "probes_failed", 0) + 1
+                continue
             snap = self.snapshot()
             torn = {k: v for k, v in snap.items() if not k.endswith(STG) and v in ("torn", "empty")}
             self.trace.append({"step": step, "sid": s.sid, "call": call["call"], "path": os.path.relpath(call["path"], self.root) if call["path"] else "",
